@@ -2,7 +2,9 @@
 
 1. translator (fail-closed, Python ast): the bodies of `_get_input`, `_get_int_attribute`, `_get_str_attribute` as programs of the
    tiny Python subset of coq/Version/Helpers.v, and the table of every call the module makes to them (caller, attribute name /
-   input index, default) -> coq/Gen/VersionHelpers.v.  Version/HelpersProofs.v proves that the translated bodies compute
+   input index, default; adapters named by their registration, table sorted) -> coq/Gen/VersionHelpers.v.  The bodies are
+   brought to the source normal form of harness/c10_pynorm.py first, so that spellings with the same behaviour (guard clauses,
+   `not in`, if-expressions, `v = E; return v`, renamed parameters / locals) give the SAME term.  Version/HelpersProofs.v proves that the translated bodies compute
    Adapters.get_int / get_str / present for EVERY node, name and default, and that the call table is the one the adapter models
    are written with.  A reader that treats a falsy value (0, "") as absent breaks the proof.
 2. attribute grid (deterministic, every tier): every attribute value the three adapters read, in particular falsy ones that
